@@ -41,12 +41,15 @@ CLAIMS = {
              "booleans; TLC decides the slot bookkeeping, rows/learners kept, optimum trial."),
     "C13": dict(
         category="model_checking", design_ref="DESIGN.md §3 C13, appendix B.8",
-        technique="TLC exhaustive model checking of Tuner.tla (all landscapes) and MLTune.tla (all schedules) + TLC validation of recorded tuner / ml::tune traces (TunerTrace.tla)",
+        technique="TLC exhaustive model checking of Tuner.tla (all landscapes), MLTune.tla (all schedules), TuneResult.tla and Combinatorial.tla (transcribed neighbourhood odometer, liveness) + replay of TLC's state graphs on the real result_t / combinatorial_iterator_t + TLC validation of recorded tuner / ml::tune traces (TunerTrace.tla)",
         text="TLC explores both tuners on every landscape over small grids (1-3 dimensions, ties, non-finite values) for grid-only, "
              "no-repeat, count bound, rejection of non-finite values, sorted result, termination; and all interleavings of the "
              "(trial, fold) tasks of ml::tune for exactly-once callbacks, own-slot storage and confluence. Real runs of both tuners "
              "(grids 2..31, plateaus/ties/corner minima/NaN/inf, max_evals 10..1000) and of ml::tune (folds 2..10, pools of 1..16 "
-             "threads with seeded delays) are recorded through the callbacks and validated by TLC.",
+             "threads with seeded delays) are recorded through the callbacks and validated by TLC. The odometer that enumerates the 3^d "
+             "neighbours (combinatorial_iterator_t::operator++) is transcribed loop iteration by loop iteration; TLC checks row-major rank "
+             "order, exactly one step per call, bounded work and termination for every count vector (<=4 dims x counts <=3; thorough 5 x 4) "
+             "and the behaviours it dumps are replayed on the real iterator (three index types).",
         note="Landscape values are small integers; the fold of a callback is identified from the index sets (k-fold splits); the "
              "trace specification requires only what the property states (not the search strategy)."),
     "C15": dict(
@@ -102,13 +105,18 @@ CLAIMS = {
              "generator is not covered; ASan/UBSan build for the never-read clause."),
     "C02": dict(
         category="exploration", design_ref="DESIGN.md §3 C02, appendix D",
-        technique="TLC model checking of SolverLoop.tla + TLC validation of solver runs recorded through a counting wrapper (MinimizerTrace.tla)",
+        technique="TLC model checking of SolverLoop.tla and SolverState.tla + replay of every edge of TLC's state graph on a real solver_state_t (SolverStateReplay.tla) + TLC validation of solver runs recorded through a counting wrapper (MinimizerTrace.tla) and of long call histories of solver_state_t (SolverStateTrace.tla)",
         text="TLC explores the outer loops of the line-search and best-state solver families against all evaluation-outcome sequences "
              "(status lives in the returned state, cstate/pstate hand-over, strict-decrease tracking). Runs of all 35 registered solvers on "
              "registered (1..32 dims) and random quadratic / max-of-linear objectives with random x0, epsilon, budgets 10..5000 and "
              "parameters drawn from their domains are recorded through a driver-owned counting function; TLC evaluates on every run: value "
              "and gradient are those of one recorded evaluation (bit-equal), status set, reported counts never above the performed ones (at "
-             "every logger line), finiteness, no-worse-than-start, budget overshoot <= 1100 + 8n.",
+             "every logger line), finiteness, no-worse-than-start, budget overshoot <= 1100 + 8n. The best-state tracker behind the "
+             "non-monotonic solvers (update_if_better / update / value_test) has its own model: strict-decrease tracking, gradient of the "
+             "stored point, non-finite offers ignored, and the stopping test equal to its declarative meaning (no strict improvement in "
+             "the last k calls) for all histories <= 4 over a 3 x 3 lattice; every edge of the graph (118k quick, 1.3M thorough) is applied "
+             "to a real solver_state_t in 1 and 3 dimensions, and random histories up to 60 calls (values up to 1e5, 1..8 dims, patience 1..12) "
+             "are validated by TLC against the same actions.",
         note="Observation of sampled runs (exploration), not a proof over all inputs; bit-equality, finiteness and the CG_DESCENT allowance "
              "are computed by the driver from the wrapper's records; termination = watchdog; the constrained solvers run through C05's driver (Solve records, also validated by this check)."),
     "C01": dict(
